@@ -98,7 +98,7 @@ class JointDistribution:
         logd = 0
         for density in self._densities:
             logd_kwargs = {key:value for (key,value) in kwargs.items() if key in density.get_parameter_names()}
-            logd += density.logd(**logd_kwargs)
+            logd = logd + density.logd(**logd_kwargs) # not in-place: terms may be 0-d or 1-element arrays
 
         return logd
 
